@@ -77,9 +77,11 @@ theorem aad_refines_key (x y : Ident) :
     (NulFreeDomain x → NulFreeDomain y → aadTail x = aadTail y → x = y) :=
   ⟨aad_eq_key_eq, aad_injective⟩
 
-/-- **LRU bound**: no cache ever holds more entries than its capacity, and no key twice -/
+/-- **LRU bound**: capacities never change, no cache ever holds more entries than its capacity, and no key twice -/
 theorem lru_bound (cfg : Cfg) (htps : 0 < cfg.tps) (caps : List Nat) (t0 : Nat) (h : List Step) :
-    ∀ ch ∈ (run cfg (World.start caps t0) h).caches, ch.entries.length ≤ ch.cap ∧ KeysDistinct ch.entries := by
+    let W := run cfg (World.start caps t0) h
+    W.caches.map (·.cap) = caps ∧ ∀ ch ∈ W.caches, ch.entries.length ≤ ch.cap ∧ KeysDistinct ch.entries := by
+  refine ⟨(run_caps cfg h _).trans (start_caps caps t0), ?_⟩
   intro ch hch
   have := (run_inv htps h _ (start_inv cfg caps t0)).caches ch hch
   exact ⟨this.2.2, this.2.1⟩
